@@ -3,6 +3,7 @@ package vs
 import (
 	"reflect"
 	"runtime"
+	rsync "sync"
 )
 
 // Faithful-ish model of Go channel semantics: parked receivers/senders are committed by the counterpart.
@@ -20,23 +21,30 @@ type chanState struct {
 	foreign      []*waiter // parked receivers on a channel closed by uninstrumented code (ctx.Done)
 	poll         func() bool
 	keep         any // the channel itself (see st)
+	id           uintptr
+	hb           rsync.Mutex // race mode: orders the operations on this channel (see race.go)
 }
 
+//go:norace
 func chanID(ch any) uintptr { return reflect.ValueOf(ch).Pointer() }
 
 // st returns the shim state of a channel. The state is keyed by the channel's address, so it keeps the channel alive for
 // the rest of the execution: a collected channel's address could otherwise be given to a new channel, which would inherit
 // the old one's state ("closed").
+//go:norace
 func (s *Sched) st(ch any) *chanState {
 	id := chanID(ch)
-	c := s.chans[id]
-	if c == nil {
-		c = &chanState{keep: ch}
-		s.chans[id] = c
+	for _, c := range s.chans {
+		if c.id == id {
+			return c
+		}
 	}
+	c := &chanState{keep: ch, id: id}
+	s.chans = append(s.chans, c)
 	return c
 }
 
+//go:norace
 func firstLive(q *[]*waiter) *waiter {
 	for len(*q) > 0 {
 		w := (*q)[0]
@@ -48,6 +56,7 @@ func firstLive(q *[]*waiter) *waiter {
 	return nil
 }
 
+//go:norace
 func commit(w *waiter, v any, ok bool) {
 	*w.gone = true
 	w.t.committed = true
@@ -57,6 +66,7 @@ func commit(w *waiter, v any, ok bool) {
 }
 
 // pollForeign: commit parked receivers whose foreign (uninstrumented) channel got closed.
+//go:norace
 func (s *Sched) pollForeign() {
 	for _, c := range s.chans {
 		if c.poll == nil || len(c.recvq) == 0 {
@@ -86,9 +96,10 @@ func (s *Sched) pollForeign() {
 }
 
 type Case interface {
-	tryFire(s *Sched) bool       // complete now if possible
-	park(s *Sched, w *waiter)    // enqueue
-	take(t *Thread)              // copy committed result
+	tryFire(s *Sched) bool    // complete now if possible
+	park(s *Sched, w *waiter) // enqueue
+	take(t *Thread)           // copy committed result
+	raceEdge(s *Sched, done bool)
 }
 
 type RecvCase[T any] struct {
@@ -97,10 +108,39 @@ type RecvCase[T any] struct {
 	ok  bool
 }
 
+//go:norace
 func CaseRecv[T any](ch <-chan T) *RecvCase[T] { return &RecvCase[T]{ch: ch} }
+//go:norace
 func (c *RecvCase[T]) Val() T                   { return c.v }
+//go:norace
 func (c *RecvCase[T]) Val2() (T, bool)          { return c.v, c.ok }
 
+// raceEdge (race mode): on arrival and on completion every operation on a channel is ordered after the earlier ones on the
+// same channel; a completed receive from a closed channel additionally performs the real receive in the receiver's own
+// goroutine (the close may have been done by uninstrumented code, e.g. a context's cancel).
+//go:norace
+func (c *RecvCase[T]) raceEdge(s *Sched, done bool) {
+	if !RaceMode || c.ch == nil {
+		return
+	}
+	hb(&s.st(c.ch).hb)
+	if done && !c.ok {
+		select {
+		case <-c.ch:
+		default:
+		}
+	}
+}
+
+//go:norace
+func (c *SendCase[T]) raceEdge(s *Sched, done bool) {
+	if !RaceMode || c.ch == nil {
+		return
+	}
+	hb(&s.st(c.ch).hb)
+}
+
+//go:norace
 func (c *RecvCase[T]) pollClosed() bool {
 	if len(c.ch) > 0 { // never consume a buffered value while polling for a foreign close
 		return false
@@ -113,6 +153,7 @@ func (c *RecvCase[T]) pollClosed() bool {
 	}
 }
 
+//go:norace
 func (c *RecvCase[T]) canFire(s *Sched) bool {
 	if c.ch == nil {
 		return false
@@ -133,6 +174,7 @@ func (c *RecvCase[T]) canFire(s *Sched) bool {
 	return false
 }
 
+//go:norace
 func (c *RecvCase[T]) tryFire(s *Sched) bool {
 	if !c.canFire(s) {
 		return false
@@ -156,6 +198,7 @@ func (c *RecvCase[T]) tryFire(s *Sched) bool {
 	return true
 }
 
+//go:norace
 func (c *RecvCase[T]) park(s *Sched, w *waiter) {
 	if c.ch == nil {
 		return
@@ -167,6 +210,7 @@ func (c *RecvCase[T]) park(s *Sched, w *waiter) {
 	st.recvq = append(st.recvq, w)
 }
 
+//go:norace
 func (c *RecvCase[T]) take(t *Thread) {
 	if t.selVal != nil {
 		c.v = t.selVal.(T)
@@ -179,8 +223,10 @@ type SendCase[T any] struct {
 	v  T
 }
 
+//go:norace
 func CaseSend[T any](ch chan<- T, v T) *SendCase[T] { return &SendCase[T]{ch: ch, v: v} }
 
+//go:norace
 func (c *SendCase[T]) tryFire(s *Sched) bool {
 	if c.ch == nil {
 		return false
@@ -200,15 +246,18 @@ func (c *SendCase[T]) tryFire(s *Sched) bool {
 	return false
 }
 
+//go:norace
 func (c *SendCase[T]) park(s *Sched, w *waiter) {
 	st := s.st(c.ch)
 	w.val = c.v
 	w.push = func() { c.ch <- c.v }
 	st.sendq = append(st.sendq, w)
 }
+//go:norace
 func (c *SendCase[T]) take(*Thread) {}
 
 // Select returns the index of the fired case, or -1 for default.
+//go:norace
 func Select(hasDefault bool, cases ...Case) int {
 	if !S.Active {
 		return selectInactive(hasDefault, cases)
@@ -219,6 +268,11 @@ func Select(hasDefault bool, cases ...Case) int {
 	s := S
 	Point() // arrival: the thread may be preempted before evaluating the select
 	t := s.cur
+	if RaceMode {
+		for _, c := range cases {
+			c.raceEdge(s, false)
+		}
+	}
 	var ready []int
 	for i, c := range cases {
 		switch cc := c.(type) {
@@ -241,6 +295,7 @@ func Select(hasDefault bool, cases ...Case) int {
 		if !cases[i].tryFire(s) {
 			panic("select arm not fireable")
 		}
+		cases[i].raceEdge(s, true)
 		return i
 	}
 	if hasDefault {
@@ -253,9 +308,11 @@ func Select(hasDefault bool, cases ...Case) int {
 	}
 	blockOp(selOpName(cases), func() bool { return t.committed })
 	cases[t.selArm].take(t)
+	cases[t.selArm].raceEdge(s, true)
 	return t.selArm
 }
 
+//go:norace
 func (c *SendCase[T]) canSend(s *Sched) bool {
 	if c.ch == nil {
 		return false
@@ -272,6 +329,7 @@ func (c *SendCase[T]) canSend(s *Sched) bool {
 	return len(c.ch) < cap(c.ch)
 }
 
+//go:norace
 func Send[T any](ch chan<- T, v T) {
 	if !S.Active {
 		ch <- v
@@ -283,6 +341,7 @@ func Send[T any](ch chan<- T, v T) {
 	Select(false, CaseSend(ch, v))
 }
 
+//go:norace
 func Recv[T any](ch <-chan T) T {
 	if !S.Active {
 		return <-ch
@@ -292,6 +351,7 @@ func Recv[T any](ch <-chan T) T {
 	return c.v
 }
 
+//go:norace
 func Recv2[T any](ch <-chan T) (T, bool) {
 	if !S.Active {
 		v, ok := <-ch
@@ -302,6 +362,7 @@ func Recv2[T any](ch <-chan T) (T, bool) {
 	return c.v, c.ok
 }
 
+//go:norace
 func Close[T any](ch chan<- T) {
 	if !S.Active {
 		close(ch)
@@ -312,6 +373,7 @@ func Close[T any](ch chan<- T) {
 	}
 	Point()
 	st := S.st(ch)
+	hb(&st.hb)
 	if st.closed {
 		panic("close of closed channel")
 	}
@@ -327,6 +389,7 @@ func Close[T any](ch chan<- T) {
 }
 
 // selectInactive: outside the scheduler (sequential harnesses using rewritten files) the real runtime semantics apply.
+//go:norace
 func selectInactive(hasDefault bool, cases []Case) int {
 	rc := make([]reflect.SelectCase, 0, len(cases)+1)
 	for _, c := range cases {
@@ -343,20 +406,25 @@ func selectInactive(hasDefault bool, cases []Case) int {
 	return i
 }
 
+//go:norace
 func (c *RecvCase[T]) rcase() reflect.SelectCase {
 	return reflect.SelectCase{Dir: reflect.SelectRecv, Chan: reflect.ValueOf(c.ch)}
 }
+//go:norace
 func (c *RecvCase[T]) setRes(v reflect.Value, ok bool) {
 	if ok {
 		c.v = v.Interface().(T)
 	}
 	c.ok = ok
 }
+//go:norace
 func (c *SendCase[T]) rcase() reflect.SelectCase {
 	return reflect.SelectCase{Dir: reflect.SelectSend, Chan: reflect.ValueOf(c.ch), Send: reflect.ValueOf(&c.v).Elem()}
 }
+//go:norace
 func (c *SendCase[T]) setRes(reflect.Value, bool) {}
 
+//go:norace
 func selOpName(cases []Case) string {
 	if len(cases) == 1 {
 		if _, ok := cases[0].(interface{ canSend(*Sched) bool }); ok {
